@@ -29,8 +29,9 @@ import (
 //	    with an unshredded schema}: every row equals the row written (own deep comparison; raw bytes
 //	    read back are also decoded by the Lean SPEC decoder).
 //	L2  the number of non-null values each leaf column of the file holds equals what the Lean MIRROR
-//	    of the shredding writer puts there (which column a value lands in), and the mirror's
-//	    reconstruction of its own shredding is the value.
+//	    of the shredding writer puts there (which column a value lands in); for the raw write paths
+//	    the whole content of every leaf column (row metadata, residual encodings, typed leaf values)
+//	    equals the mirror's; the mirror's reconstruction of its own shredding is the value.
 
 func init() { RegisterSub("C19", "shredding", RunC19Shredding) }
 
@@ -634,9 +635,9 @@ func c19ReadPath(name string, data []byte, fileSchema *parquet.Schema, n int) (r
 	return
 }
 
-// non-null value count of every leaf column, by dotted path
-func c19ColumnCounts(data []byte) (counts map[string]int64, err error) {
-	counts = map[string]int64{}
+// the non-null values of every leaf column, by dotted path, as canonical text
+func c19ColumnValues(data []byte) (cols map[string][]string, err error) {
+	cols = map[string][]string{}
 	err = c19Guard(func() error {
 		f, err := parquet.OpenFile(bytes.NewReader(data), int64(len(data)))
 		if err != nil {
@@ -645,6 +646,7 @@ func c19ColumnCounts(data []byte) (counts map[string]int64, err error) {
 		paths := f.Schema().Columns()
 		for _, rg := range f.RowGroups() {
 			for ci, cc := range rg.ColumnChunks() {
+				path := strings.Join(paths[ci], ".")
 				pages := cc.Pages()
 				for {
 					p, err := pages.ReadPage()
@@ -658,9 +660,30 @@ func c19ColumnCounts(data []byte) (counts map[string]int64, err error) {
 					vals := make([]parquet.Value, p.NumValues())
 					k, _ := p.Values().ReadValues(vals)
 					for _, v := range vals[:k] {
-						if !v.IsNull() {
-							counts[strings.Join(paths[ci], ".")]++
+						if v.IsNull() {
+							continue
 						}
+						var t string
+						switch v.Kind() {
+						case parquet.Boolean:
+							t = "b0"
+							if v.Boolean() {
+								t = "b1"
+							}
+						case parquet.Int32:
+							t = fmt.Sprintf("i32:%d", v.Int32())
+						case parquet.Int64:
+							t = fmt.Sprintf("i64:%d", v.Int64())
+						case parquet.Float:
+							t = fmt.Sprintf("f32:%08x", math.Float32bits(v.Float()))
+						case parquet.Double:
+							t = fmt.Sprintf("f64:%016x", math.Float64bits(v.Double()))
+						case parquet.ByteArray, parquet.FixedLenByteArray:
+							t = "x" + hex.EncodeToString(v.ByteArray())
+						default:
+							t = "?" + v.Kind().String()
+						}
+						cols[path] = append(cols[path], t)
 					}
 					parquet.Release(p)
 				}
@@ -835,10 +858,65 @@ func c19ShredCase(ctx *core.Ctx, r *rand.Rand, p *c19Pending, sample bool) {
 			}
 		}
 		// ---- L2: which leaf column holds what, against the mirror of the shredding writer
-		counts, err := c19ColumnCounts(data)
+		colValues, err := c19ColumnValues(data)
 		if err != nil {
 			ctx.Fail("L2", "column-scan-fails "+wp.name, err.Error(), detail(nil))
 			continue
+		}
+		counts := map[string]int64{}
+		for k, v := range colValues {
+			counts[k] = int64(len(v))
+		}
+		// raw write paths decode the row (fields come out sorted by key), register every field name
+		// in the row dictionary and shred: the whole content of every leaf column is determined
+		if strings.HasPrefix(wp.name, "raw-") {
+			model := make([][]string, len(leafPaths))
+			var modelMeta []string
+			left := nrows
+			bad := false
+			for i, n := range values {
+				i := i
+				// an unshredded column passes the caller's bytes through; a shredded one decodes them
+				// first (fields come out sorted by key) and re-encodes the residuals
+				in := n.SortedString()
+				if s.kind == "none" {
+					in = n.String()
+				}
+				p.add("variant.shredcols "+stxt+" "+in, func(ans string) {
+					left--
+					f := strings.Fields(ans)
+					if len(f) != 3 || f[0] != "ok" {
+						bad = true
+						ctx.Fail("L2", "shred-model-error", "the shredding model does not answer", detail(map[string]any{"row": i, "model": ans}))
+					} else {
+						modelMeta = append(modelMeta, "x"+strings.TrimPrefix(f[1], "-"))
+						for j, c := range strings.Split(f[2], ";") {
+							if c != "-" && j < len(model) {
+								model[j] = append(model[j], strings.Split(c, ",")...)
+							}
+						}
+					}
+					if left == 0 && !bad {
+						cmp := func(path string, want []string) bool {
+							got := colValues[path]
+							if strings.Join(got, ",") != strings.Join(want, ",") {
+								ctx.Fail("L2", "shred-column-content "+wp.name+" schema="+s.kind, "leaf column "+path+" does not hold the values the mirror of the shredding writer puts there",
+									detail(map[string]any{"column": path, "file": got, "model": want}))
+								return false
+							}
+							return true
+						}
+						if cmp("var.metadata", modelMeta) {
+							for j, path := range leafPaths {
+								if !cmp(path, model[j]) {
+									break
+								}
+							}
+						}
+						ctx.Hist("shred.l2", "column contents compared")
+					}
+				})
+			}
 		}
 		sum := make([]int64, len(leafPaths))
 		pending := nrows
